@@ -4,6 +4,19 @@ VERIF = os.path.dirname(os.path.dirname(os.path.abspath(__file__)))
 ALL = ["C%02d" % i for i in range(1, 21)]
 
 CLAIMS = {
+ "C19": dict(
+    text="Coq theorems on a reference-graph model of CPython's reference counting (any finite graph): a graph that admits a rank "
+         "increasing along every reference (checked by an executable certificate) and has no outside reference is reclaimed "
+         "completely without a cyclic collector; a set of objects each referenced by a member of the set (an output stored on its own "
+         "autograd context, an object holding a closure over itself) survives for ever; whatever the caller references survives. "
+         "The model runs on the reference graphs extracted from the library's helper objects after each call (exact agreement with "
+         "the objects that are really still alive), and every graph without survivors passes the certificate.",
+    note="Partial: references held on the C++ side (autograd nodes, saved tensors) are invisible to the extraction; they are covered "
+         "by the project's own criterion - live torch.Tensor count before / after k calls with the cyclic collector disabled - for "
+         "every functional x method x function kind x history, as an implementation oracle. Trusted: Coq kernel + vm_compute; "
+         "gc.get_referents / weak references; capture hooks of the harness.",
+    technique="Coq proof (reference-count reclamation on reference graphs, rank certificate) + extracted-graph model correspondence + live-tensor oracle",
+    ref="DESIGN.md section 7, C19"),
  "C08": dict(
     text="MathComp theorems (any number of segments, any sizes, any commutative ring): the segment loop of _SolveIVP.backward over "
          "linear adjoint flows computes lam_i = g_i + P_i lam_{i+1}, q_i = q_{i+1} + Q_i lam_{i+1}; the result is additive in the "
